@@ -20,9 +20,10 @@ Tie to /repo (harness/cmd/mutex, real commservices/mutex.SharedMutex built with 
     first) are checked by `decide`; `tasks` ops drive the REAL Runner of a freshly assembled application
     (harness/cmd/mutex/tasks.go) with wait lists and lock maps, bodies = gated probes, a deterministic
     adversarial family ("D waits for B, they share a written resource, B is parked behind a third task on
-    a smaller resource") and random cases under a random controller; the recorded bodies go through the
-    Lean interval monitor and order monitor; a case whose tasks do not all end is the `all get their
-    turn` clause failing.
+    a smaller resource"; "a task whose body FAILS held a resource somebody needs afterwards"; "a failing
+    prerequisite: the dependant gives up without a lock") and random cases (any subset of bodies failing,
+    several root scopes) under a random controller; the recorded bodies go through the Lean interval,
+    order and failure monitors; a case whose tasks do not all end is the `all get their turn` clause failing.
 """
 import fcntl
 import glob
@@ -40,7 +41,8 @@ META = dict(
              "holders are never blocked, deadlock freedom, bounded completion, the unsorted variant deadlocks) for "
              "an ideal RW lock and for Go's writer-preferring sync.RWMutex as modelled, and the same for holders "
              "that are pipeline tasks (any wait lists over earlier tasks, any failing subset: wait first, then "
-             "lock; exclusion, deadlock freedom, bounded completion, body only after the prerequisites ended, "
+             "lock; exclusion, deadlock freedom, bounded completion, body only after the prerequisites ended, a "
+             "failed or ended task holds nothing and a task gives up only after a failed prerequisite, "
              "the lock-before-wait order deadlocks); the model is tied to SharedMutex on every run by gated "
              "schedule replay compared step by step, a Lean interval monitor over recorded critical sections, "
              "stress/lockstep/overlap runs under a watchdog; the tasks layer is tied to Runner.runGo by go/ast "
@@ -52,9 +54,10 @@ META = dict(
                "Unlock (tied by differential gated replay whose reach is bounded by the generator), Go runtime "
                "goroutine wait reasons used to observe 'blocked', the harness gate scheduler.  Tasks layer: the "
                "hand-written model of Runner.runGo/waitForTasks (tied by go/ast facts of the statement order and by "
-               "runs of the real Runner whose reach is bounded by the generator; failing bodies are modelled but not "
-               "driven on the implementation here — C14 does that); that a hang is observed only as 'no event for the "
-               "whole watchdog period'.",
+               "runs of the real Runner whose reach is bounded by the generator; failing bodies are driven too: a failure "
+               "marks the whole context of its root scope as done, so the harness puts tasks on several root scopes and "
+               "demands a body only of tasks whose scope saw no other failure); that a hang is observed only as 'no event "
+               "for the whole watchdog period'.",
     technique="Lean 4 proof (invariants of a labelled transition system, greatest-awaited-name argument, tasks layer "
               "reduced to it: waiting tasks hold nothing) + go/ast facts + gated schedule replay + real-Runner task "
               "sets (adversarial + random controller) + interval/order monitors + stress",
@@ -82,8 +85,9 @@ def _concrete(impl):
     if "hang" in impl.split() or "!timeout" in impl:
         m = re.search(r"unfinished=(\S+)", impl)
         if m:
-            return ("tasks %s never got their turn: nothing happened for the whole watchdog period after the last "
-                    "gate was opened (deadlock between lock holding and the wait lists, or a lost wake-up)" % m.group(1))
+            return ("tasks %s never got their turn (never ended): nothing happened for the whole watchdog period after the "
+                    "last gate was opened (deadlock between lock holding and the wait lists, resources kept by a task that "
+                    "has ended or failed, or a lost wake-up)" % m.group(1))
         return "some holder never got its turn within the 20 s watchdog (deadlock or lost wake-up)"
     m = re.search(r"excl:(\S+)", impl)
     if m:
@@ -162,6 +166,9 @@ def _search(ctx, go, model, holders, tag):
 
 
 def _monitor_text(v):
+    if v.startswith("afterfailed"):
+        return ("the Lean failure monitor answers `%s` (task, prerequisite): a body was entered although the body of a "
+                "task of its wait list fails" % v)
     if v.startswith("early"):
         return ("order violated: the Lean order monitor answers `%s` (task, prerequisite): a body was entered before "
                 "the body of a task of its wait list had been left" % v)
@@ -170,14 +177,26 @@ def _monitor_text(v):
 
 
 def _task_specs(op):
-    """[(waits, {name: write?}, nested)] of a `tasks` op"""
+    """[(waits, {name: write?}, flags)] of a `tasks` op; flags: n nested body, f failing body, digits scope group"""
     res = []
     for t in op.split(" ")[1].split(";"):
         f = t.split("/")
         waits = [] if f[0] in ("-", "") else [int(x) for x in f[0].split(",")]
         rows = {} if f[1] in ("-", "") else dict((r.split(":")[0], r.split(":")[1] == "w") for r in f[1].split(","))
-        res.append((waits, rows, len(f) == 3))
+        res.append((waits, rows, f[2] if len(f) == 3 else ""))
     return res
+
+
+def _failed_then_needed(specs):
+    """a task with a failing body holds a resource that a task outside its wait-list descendants names in a
+    conflicting mode (the situation in which a failed task that keeps its locks makes somebody hang)"""
+    for i, (_, rows, fl) in enumerate(specs):
+        if "f" not in fl:
+            continue
+        for j, (_, rows2, _) in enumerate(specs):
+            if j != i and any(n in rows2 and (w or rows2[n]) for n, w in rows.items()):
+                return True
+    return False
 
 
 def _dep_shares(specs):
@@ -233,8 +252,16 @@ def _features(op, impl):
             f.append("tasks:wait-list")
         if _dep_shares(specs):
             f.append("tasks:dependant-shares-resource")
-        if any(n for _, _, n in specs):
+        if any("n" in fl for _, _, fl in specs):
             f.append("tasks:nested-body")
+        if any("f" in fl for _, _, fl in specs):
+            f.append("tasks:failing-body")
+        if _failed_then_needed(specs):
+            f.append("tasks:failed-holder-then-needed")
+        if any(w and "f" in specs[j][2] for w, _, _ in specs for j in w):
+            f.append("tasks:failing-prerequisite")
+        if any(fl.strip("nf") for _, _, fl in specs):
+            f.append("tasks:several-scope-groups")
     return f
 
 
@@ -355,11 +382,15 @@ def run(ctx):
                 "iterations), 10%% overlap gates (2-5 mutually compatible holders + bystanders), 10%% lockstep rounds "
                 "(2-8 holders), 20%% rlock/wlock lists; oracle: %d further stress/overlap/rounds cases. non-trivial = "
                 "some holder was observed blocked (sched) / two holders share a name (others) / a non-empty map was "
-                "parsed (locks); distinct = distinct op lines.  Tasks layer: the adversarial family (11 task sets: D "
+                "parsed (locks); distinct = distinct op lines.  Tasks layer: the adversarial family (20 task sets: D "
                 "waits for B, both need a resource at least one writes, B is parked behind a third task holding a smaller "
-                "resource; who writes / chains of waits / several blockers / nested bodies vary) under the deterministic "
+                "resource; who writes / chains of waits / several blockers / nested bodies vary; 9 sets with FAILING bodies: "
+                "a failing holder of a resource that a task of another scope group needs afterwards, a failing prerequisite "
+                "whose dependant must give up without a lock, failure inside a nested task) under the deterministic "
                 "controller + %d generated task sets (2-7 tasks, pools of 1-4 names, wait lists over earlier tasks in 40%% "
-                "of the tasks, half of those share a conflicting resource with a prerequisite, 1/6 nested bodies) under a "
+                "of the tasks, half of those share a conflicting resource with a prerequisite, 1/6 nested bodies; in half of "
+                "the sets the tasks are spread over 2-3 scope groups = root scopes and each body fails with probability 1/4) "
+                "under a "
                 "random controller that interleaves submissions, parked per-name acquisitions and body gates; tasks "
                 "oracle: the family + %d further task sets per 8 shards; non-trivial = a wait list or a shared name"
                 % (n_rand, n_oracle, n_tasks, n_toracle))
@@ -390,7 +421,7 @@ def run(ctx):
     ctx.extra["intervals_checked"] = sum(t.count(" ") for _, t in tl)
     rejected = [(i, t, v) for (i, t), v in zip(tl, verdicts) if v != "accept"]
     for i, t, v in rejected:
-        if not (v.startswith("reject ") or v.startswith("early ")):
+        if not (v.startswith("reject ") or v.startswith("early ") or v.startswith("afterfailed ")):
             ctx.fatal("the Lean monitor could not read the trace of op %d (%s): %s" % (i, v, t[:300]))
     ctx.histogram["monitor:accept"] = len(verdicts) - len(rejected)
     ctx.histogram["monitor:reject"] = len(rejected)
@@ -422,7 +453,7 @@ def run(ctx):
                 sw = _run_model(ctx, model, ["tswap " + o.split(" ")[1]], "swap%d" % i)[0]
                 ann.append("model of the swapped order (SharedMutex.Lock before waitForTasks, tsysSwapped) on this task "
                            "set: " + sw + (" (schedule of task indices reaching a state with no enabled step)"
-                                           if sw.startswith("stuck") else ""))
+                                           if sw.startswith("stuck") else " (that order does not explain the hang)"))
             ctx.violation("impl-vs-spec", "op %d: %s" % (i, why), lines=[o], annotations=ann, concrete=True)
             continue
         mo = o
@@ -456,7 +487,8 @@ def run(ctx):
         ctx.violation("impl-vs-spec", "tasks oracle: " + (_concrete(m.group(2)) or m.group(2) if m else f),
                       lines=[m.group(1)] if m else [], annotations=["oracle: " + f], concrete=True)
     for k in ("sched:~w", "sched:~a", "sched:~r", "sched:ND", "locks:err", "locks:map", "tasks:adv", "tasks:rnd",
-              "tasks:wait-list", "tasks:dependant-shares-resource", "tasks:nested-body"):
+              "tasks:wait-list", "tasks:dependant-shares-resource", "tasks:nested-body", "tasks:failing-body",
+              "tasks:failed-holder-then-needed", "tasks:failing-prerequisite", "tasks:several-scope-groups"):
         if not ctx.histogram.get(k):
             ctx.notes.append("coverage gap: no case hit " + k)
     if failed:
